@@ -1,4 +1,5 @@
 import IOptProofs.HolderRoot
+import IOptProofs.HolderEuc
 import Mathlib.Tactic.NormNum
 /-!
 # C08 (analytic part): the evolvent is a Hölder curve  (worker h)
@@ -126,5 +127,12 @@ example : dist2 (getImage 2 2 [(-1:ℝ), 0] [2, 3] (1/4)) (getImage 2 2 [(-1:ℝ
         rcases this with rfl | rfl <;> norm_num)
     (by norm_num) (by norm_num) (by norm_num) (by norm_num)
     (by rw [le_abs]; right; norm_num)
+
+/-- **(norm)** `Ev.dist2` on coordinate lists of length `n` is the distance of Mathlib's
+`EuclideanSpace ℝ (Fin n)` (`Ev.toEuc n a` is the point with coordinates `a`), so the statements
+above are about the Euclidean norm. -/
+theorem C08_dist2_euclidean {n : Nat} {a b : List ℝ} (ha : a.length = n) (hb : b.length = n) :
+    dist2 a b = dist (toEuc n a) (toEuc n b) :=
+  dist2_eq_dist ha hb
 
 end Ev
